@@ -46,3 +46,29 @@ package controllerv1
 //@   loop 2:
 //@     invariant rangeindex >= -1 && inLabels(stream, rangeindex + 1) && stream.g_numCount == 0
 //@     modifies stream.g_state, stream.g_kind, stream.g_depth
+
+// TraceQL search: the traces of all batches form one JSON array. A separator is
+// written only right after a complete element, and an element only right after the
+// opening bracket or a separator - wherever the batch boundaries fall, also after
+// empty batches.
+//@ func (*TempoController).Search [C15]
+//@   flag checks=-assert,-index
+//@   at ResponseWriter).Write$ separator-follows-an-element: len(arg0) == 1 && int(arg0[0]) == 44 ==> respLast != 91 && respLast != 44
+//@   at ResponseWriter).Write$ trace-follows-bracket-or-separator: aliases(arg0, strTrace) && len(arg0) == len(strTrace) ==> respLast == 91 || respLast == 44
+//@   at ResponseWriter).Write$ found-trace-follows-bracket-or-separator: aliases(arg0, bTrace) && len(arg0) == len(bTrace) ==> respLast == 91 || respLast == 44
+//@   at ResponseWriter).Write$ array-closed-after-bracket-or-element: len(arg0) == 2 && int(arg0[0]) == 93 ==> respLast != 44
+//@   loop 1:
+//@     invariant i >= 0
+//@     invariant i == 0 ==> respLast == 91
+//@     invariant i != 0 ==> respLast != 91 && respLast != 44
+//@     modifies respLast
+//@   loop 2:
+//@     invariant i >= 0
+//@     invariant i == 0 ==> respLast == 91
+//@     invariant i != 0 ==> respLast != 91 && respLast != 44
+//@     modifies respLast
+//@   loop 3:
+//@     invariant i >= 0
+//@     invariant i == 0 ==> respLast == 91
+//@     invariant i != 0 ==> respLast != 91 && respLast != 44
+//@     modifies respLast
